@@ -141,7 +141,7 @@ func zzStubFinishedHash(c *cipherSuiteTLS13, baseKey []byte, transcript interfac
 }
 
 //verif:harness C19 psk_binder_patch_keeps_length unwind=4000 instrs=600000000 paths=40000 wall=900
-//verif:stub (*math/rand.Rand).Shuffle zzStubShuffle
+//verif:stub (*math/rand.Rand).Shuffle zzStubShuffleIdentity
 //verif:stub (crypto.Hash).New zzStubHashNew
 //verif:stub (*utls.cipherSuiteTLS13).finishedHash zzStubFinishedHash
 //verif:expect end
@@ -181,7 +181,7 @@ func zzC19PskBinderPatchKeepsLength() {
 }
 
 //verif:harness C19 psk_resumption_survives_hrr unwind=4000 instrs=600000000 paths=40000 wall=900
-//verif:stub (*math/rand.Rand).Shuffle zzStubShuffle
+//verif:stub (*math/rand.Rand).Shuffle zzStubShuffleIdentity
 //verif:stub (crypto.Hash).New zzStubHashNew
 //verif:stub (*utls.cipherSuiteTLS13).finishedHash zzStubFinishedHash
 //verif:stub (*utls.Conn).readHandshake zzStubReadHandshake
@@ -216,7 +216,7 @@ func zzC19PskResumptionSurvivesHRR() {
 }
 
 //verif:harness C19 wire_never_offers_ems_session_without_extension unwind=4000 instrs=600000000 paths=40000 wall=900
-//verif:stub (*math/rand.Rand).Shuffle zzStubShuffle
+//verif:stub (*math/rand.Rand).Shuffle zzStubShuffleIdentity
 //verif:stub (*crypto/x509.Certificate).VerifyHostname zzStubVerifyHostname
 //verif:stub (time.Time).Sub zzStubTimeSub
 //verif:expect offered declined
